@@ -58,7 +58,7 @@ PROPS = {
                 cone=["Model/Objects.v", "Proofs/ObjectsP.v"] + ENGINE_CONE,
                 rule="a generated probe execution (schema, data, WithCtxValue / WithIssueFormatter options) is run on freshly cleared pools, after a random history of 1-5 other executions whose results are kept or handed back through CollectMap / CollectList / SanitizeMapAndCollect / SanitizeListAndCollect (GC off, goroutine pinned, so the pools really recycle), and on pools handing out dirty objects (every field junk, CanCatch/Exit set, context values, stale path segments); every issue field, the destination and ctx.Get inside every callback are compared; issue objects of one result must be pairwise distinct; the probe is also compared with the Coq engine; distinct = distinct (schema shape, issue codes, mode)",
                 families=[dict(name="history", family="history", profile="C07", quick=900, thorough=15000,
-                               tags=["isolation", "isolation_dirty", "issue_aliased", "panic", "ctx"])]),
+                               tags=["isolation", "isolation_dirty", "issue_aliased", "panic", "ctx", "nil", "issues", "dest"])]),
     "C08": dict(theorems=["C08_pooled_objects_have_one_holder", "C08_race_free_partial", "C08_schema_is_read_only", "C08_each_call_like_running_alone"],
                 cone=["Model/Threads.v", "Proofs/ThreadsP.v", "Model/Objects.v", "Proofs/ObjectsP.v"] + ENGINE_CONE,
                 level_text="PARTIAL proof: Coq theorems for the ownership logic (pooled objects have one holder under every interleaving; disciplined events never race; schema and input are never written; each call's result is a function of its own arguments); the Go memory model, sync.Pool's atomicity and the runtime are trusted; a -race stress on shared schema objects validates the footprint model on every run",
@@ -67,7 +67,9 @@ PROPS = {
                 families=[dict(name="race", family="race", quick=0, thorough=0, tags=["data_race", "concurrent_result"]),
                           dict(name="history", family="history", profile="C07", quick=400, thorough=5000, tags=["isolation", "isolation_dirty", "issue_aliased", "panic", "nil", "issues", "msg", "dest"])]),
     "C09": dict(theorems=["C09_struct_order_independent_partial", "C09_fields_order_independent_partial", "C09_deep_order_independent_partial", "C09_deep_premise_is_satisfiable", "C09_input_key_order_irrelevant", "C09_error_state_irrelevant_without_transforms", "C09_engine_computes_semantics"], cone=ENGINE_CONE + ["Proofs/Indep.v", "Proofs/DeepOrder.v"], rule=ENGINE_RULE,
-                families=[eng("engine", "C09", 1000, 16000, ["repeat", "repeat_ptgate", "panic", "nil", "issues", "dest"])]),   # + the tie itself: an outcome no visit order of the (order-independent) model explains
+                families=[eng("engine", "C09", 1000, 16000, ["repeat", "repeat_ptgate", "panic", "nil", "issues", "dest"]),
+                          # one schema object at two places of a larger schema whose destinations lay the fields out differently: each place as an independent copy, on every run
+                          dict(name="shared", family="builder", profile="default", quick=120, thorough=1000, shard=150, tags=["share"])]),   # + the tie itself: an outcome no visit order of the (order-independent) model explains
     "C10": dict(theorems=["C10_map_wf", "C10_paths", "C10_sanitize", "C10_field_key", "C10_nested_source_tag_refuted", "C10_engine_computes_semantics"], cone=ENGINE_CONE + ["Proofs/ErrsP.v", "Proofs/FrontEndsP.v"], rule=ENGINE_RULE,
                 families=[eng("engine", "C10", 1200, 20000, ["issues", "first", "panic", "sanitize"]),
                           # the map of a call after arbitrary earlier calls (Collect helpers, undecodable bodies): still keyed by its own issues' paths
@@ -98,7 +100,9 @@ PROPS = {
                 cone=["Model/Http.v", "Proofs/HttpP.v", "Model/Engine.v"],
                 rule="method x Content-Type grid (standard, unknown and lower-case methods; parameters, empty, malformed and random media types) with the dispatch observed through recording Config.Parsers; query strings x keys for urlDataProvider.Get; non-trivial = a non-GET/HEAD request or a present/repeated parameter; distinct = distinct (method, content type) or (query, key)",
                 families=[sat("http", "http", 1200, 12000, ["dispatch", "urlget", "dispatch_rfc", "dispatch_media"]),
-                          dict(name="fe", family="fe", profile="fe", quick=900, thorough=12000, tags=["nil", "issues", "dest", "calls", "panic"])]),
+                          dict(name="fe", family="fe", profile="fe", quick=900, thorough=12000, tags=["nil", "issues", "dest", "calls", "panic"]),
+                          # an undecodable request after arbitrary earlier requests (Collect helpers included): still exactly one top-level issue of its own
+                          dict(name="history", family="history", profile="C07", quick=400, thorough=5000, tags=["nil", "issues", "dest", "isolation", "panic"])]),
     "C16": dict(theorems=["C16_helpers_refine_pure", "C16_pick", "C16_omit", "C16_selected", "C16_later_wins", "C16_earlier_kept", "C16_merge_many_is_fold", "C16_legacy_clone_refuted"],
                 cone=["Model/Helpers.v", "Proofs/HelpersP.v"],
                 rule="random sequences (up to 18 operations) of Struct / Test / PostTransform / Pick / Omit (string and map[string]bool arguments, repeated keys, false entries) / Extend / Merge over bases whose slices have spare capacity; every schema created is then executed twice (all struct tests failing: fields, versions and test order; valid record: PostTransform order); distinct = distinct operation sequences",
